@@ -215,7 +215,9 @@ func runKillCase(c *killCase) (impl, pred string) {
 		pred = "FAIL:process-not-reaped-after-kill"
 	case !exited:
 		pred = "FAIL:exited-false-after-kill"
-	case (c.beh == "fast" || c.beh == "fast500" || c.beh == "fastlost") && c.pattern == "single" && forced:
+	case (c.beh == "fast" || c.beh == "fast500" || c.beh == "fastlost") && c.pattern == "single" && forced && (c.proto != "netrpc" || !clean):
+		// (net/rpc: a force kill issued after the plugin had already finished its clean-up and left is the harmless
+		// shutdown race of RPCClient.Close; the clean-up marker tells the two apart)
 		pred = "FAIL:graceful-plugin-force-killed"
 	case (c.beh == "fast" || c.beh == "fast500" || c.beh == "fastlost") && c.pattern == "single" && !clean:
 		pred = "FAIL:graceful-plugin-did-not-finish-cleanup"
